@@ -744,7 +744,14 @@ func runStandIns(id string) ([]map[string]interface{}, []string) {
 		ovf := filepath.Join(tmp, "ov.json")
 		os.WriteFile(ovf, ov, 0o644)
 		t0 := time.Now()
-		cmd := exec.Command("go", "test", "-overlay", ovf, "-vet=off", "-count=1", "-timeout", "1500s", "-v", "-run", "TestZZStandIn", ".")
+		args := []string{"test", "-overlay", ovf, "-vet=off", "-count=1", "-timeout", "1500s", "-v"}
+		for _, ln := range strings.SplitN(string(src), "\n", 4) {
+			if strings.HasPrefix(ln, "// goflags:") {
+				args = append(args, strings.Fields(strings.TrimPrefix(ln, "// goflags:"))...)
+			}
+		}
+		args = append(args, "-run", "TestZZStandIn", ".")
+		cmd := exec.Command("go", args...)
 		cmd.Dir = filepath.Join("/repo", pkgdir)
 		cmd.Env = append(os.Environ(), "GOFLAGS=-mod=mod", "GOPROXY=off", "GOSUMDB=off", "GOTOOLCHAIN=local")
 		b, _ := cmd.CombinedOutput()
@@ -759,6 +766,9 @@ func runStandIns(id string) ([]map[string]interface{}, []string) {
 			if strings.HasPrefix(ln, "STANDIN-DONE") {
 				done = ln
 			}
+		}
+		if i := strings.Index(string(b), "WARNING: DATA RACE"); i >= 0 {
+			fails = append(fails, "STANDIN-FAIL class=data-race reported by the Go race detector: "+strings.ReplaceAll(truncate(string(b)[i:], 900), "\n", " | "))
 		}
 		// a failure class listed in known_findings.txt (obligation = "standin:<file stem>:<class>") is a recorded
 		// finding: reported as such, not as a violation; every other failing input still is one
